@@ -105,6 +105,9 @@ def run(ctx: Ctx):
 
     ch, info = extract_exprs.generate()     # the operator branches and duration formats, from the `ast` of _time.py
     ctx.extra["source_functions_not_translated"] = info["not_translated"]
+    from translator import extract_time
+
+    ctx.extra["source_inplace_table"] = extract_time.generate_purity()[1]   # in-place operations on parameters (`ops_pure`)
     ctx.proof = common.prove("C03")
     Time, TimeDelta = _imp()
     drv = ctx.driver
@@ -112,8 +115,10 @@ def run(ctx: Ctx):
     ctx.rule = ("random operand pairs: epoch (mjd 37300..88000, whole/half/random) x duration in [-40000,40000] d "
                 "(whole, sub-day, negative, mixed) x 4 duration formats x 5 scales x scalar/array; a case is "
                 "non-trivial when the duration is non-zero; distinct by canonical operand values")
-    ctx.trusted += ["floating-point error is measured on the sampled inputs, not proved",
-                    "NumPy elementwise arithmetic modelled as map"]
+    ctx.trusted += ["floating-point: proved for any rounding with relative error <= 2^-53 that keeps half-integers (theorems result_normalised, "
+                    "laws_rounded); that NumPy's float64 + and - are such a rounding is checked on every sampled operation (rounding-budget)",
+                    "NumPy broadcasting modelled by `broadcast2` (0-/1-dimensional operands) and run against the real operators",
+                    "translator/extract_timepurity.py (`ast` scan for in-place operations on parameters / aliases of parameters)"]
     ctx.assumptions += ["model operands are the exact rationals of the implementation's stored doubles"]
     n_cases = ctx.budget(400, 20000)
     for ci in range(n_cases):
@@ -137,6 +142,7 @@ def run(ctx: Ctx):
         except Exception as e:  # the real code raised where the property says it must not
             ctx.violate(f"raises:{type(e).__name__}", f"arithmetic raised {type(e).__name__}: {e}", case)
     two_part_constructors(ctx, TimeDelta, drv)
+    array_ops(ctx, Time, TimeDelta, drv)
     mixed_scales(ctx, Time, TimeDelta)
     ctx.traces = ctx.evaluations
 
@@ -178,6 +184,13 @@ def two_part_constructors(ctx, TimeDelta, drv):
         if (snapshot(a1), snapshot(a2)) != before:
             ctx.violate("constructor-mutates-input", f"constructing TimeDelta(val, val2=..., fmt={fmt!r}) changed the caller's array", case)
         j1, j2 = jparts(d)
+        # the constructor on the heap model: the caller's two arrays (writable buffers) afterwards, and the shape of the result
+        enc = (lambda v: f"s:{rs(frac(v[0]))}") if scalar else (lambda v: "a:" + ",".join(rs(frac(x)) for x in v))
+        hres, hheap, _n = (x.strip() for x in drv.ask1(f"c03 hctor {fmt} {scale} {enc(v1)} {enc(v2)}").split("|"))
+        if dec_heap(hheap) != heap_of(a1, a2):
+            ctx.disagree("caller arrays after a two-part constructor (heap model)", case, hheap, str(heap_of(a1, a2))[:300])
+        if hres in ("NI", "SHAPE", "BAD") or (hres.split()[1].startswith("s:")) != scalar:
+            ctx.disagree("two-part constructor (heap model: result shape)", case, hres, "scalar" if scalar else f"array{n}")
         ans = drv.ask([f"c03 tojds {fmt} {rs(frac(x))} {rs(frac(y))}" for x, y in zip(v1, v2)])
         for i, a in enumerate(ans):
             m1, m2 = (common.pr(t) for t in a.split())
@@ -201,6 +214,147 @@ def two_part_constructors(ctx, TimeDelta, drv):
                 ctx.violate("constructor-freezes-input", "the array passed to TimeDelta was left read-only", case)
             if not (np.array_equal(keep[0], np.asarray(d.jd1)) and np.array_equal(keep[1], np.asarray(d.jd2))):
                 ctx.violate("constructor-aliases-input", "changing the caller's array afterwards changed the duration", case)
+
+
+U53 = Fraction(1, 2**53)
+
+
+def enc_val(j1, j2, scalar):
+    """operand for the driver: `s:j1:j2` or `a:j1,…:j2,…` (exact rationals of the stored doubles)"""
+    if scalar:
+        return f"s:{rs(j1[0])}:{rs(j2[0])}"
+    return "a:" + ",".join(rs(x) for x in j1) + ":" + ",".join(rs(x) for x in j2)
+
+
+def dec_val(tok):
+    kind, a, b = tok.split(":")
+    f = lambda t: [common.pr(x) for x in t.split(",")] if t else []
+    return kind == "s", f(a), f(b)
+
+
+def dec_heap(text):
+    """`x,x/w;x/r` → [([Fractions], writable)]"""
+    text = text.strip()
+    if not text:
+        return []
+    out = []
+    for c in text.split(";"):
+        d, fl = c.rsplit("/", 1)
+        out.append(([common.pr(x) for x in d.split(",")] if d else [], fl == "w"))
+    return out
+
+
+def heap_of(*arrays):
+    """the buffers the model knows about, as they are now on the real side: contents (exact) and flags.writeable"""
+    out = []
+    for a in arrays:
+        if isinstance(a, np.ndarray) and a.ndim == 1:
+            out.append(([frac(x) for x in a.tolist()], bool(a.flags.writeable)))
+    return out
+
+
+SHAPES = ["scalar", "len1", "lenN", "lenM", "len0"]
+
+
+def array_ops(ctx, Time, TimeDelta, drv):
+    """scalar and array operands in every combination of shapes (scalar, length 1, n, m != n, 0): the real operators against
+    the heap model `binopH` — result kind, shape and parts; NumPy's shape error exactly where the model has it; the operands'
+    own buffers (contents and flags) afterwards against the model's heap"""
+    rng = ctx.rng
+
+    def build(kind, shape, scale, n, m):
+        k = {"scalar": 1, "len1": 1, "lenN": n, "lenM": m, "len0": 0}[shape]
+        if kind == "time":
+            mj = [gen_epoch_mjd(rng) for _ in range(k)]
+            v1 = [float(np.floor(x) + 2400000.5) for x in mj]
+            v2 = [float(x - np.floor(x)) for x in mj]
+            if shape == "scalar":
+                return Time(v1[0], val2=v2[0], fmt="jd", scale=scale)
+            return Time(np.array(v1, dtype=float), val2=np.array(v2, dtype=float), fmt="jd", scale=scale)
+        dv = [gen_duration_days(rng) for _ in range(k)]
+        if shape == "scalar":
+            return TimeDelta(float(dv[0]), fmt="days", scale=scale)
+        return TimeDelta(np.array(dv, dtype=float), fmt="days", scale=scale)
+
+    OPS = [("add", "time", "delta", lambda x, y: x + y), ("sub", "time", "delta", lambda x, y: x - y),
+           ("sub", "time", "time", lambda x, y: x - y), ("add", "delta", "delta", lambda x, y: x + y),
+           ("sub", "delta", "delta", lambda x, y: x - y), ("add", "delta", "time", lambda x, y: x + y),
+           ("add", "time", "time", lambda x, y: x + y), ("sub", "delta", "time", lambda x, y: x - y)]
+    for _ in range(ctx.budget(250, 8000)):
+        op, ka, kb, fn = rng.choice(OPS)
+        sha, shb = rng.choice(SHAPES), rng.choice(SHAPES)
+        scale = rng.choice(SCALES)
+        n = rng.randint(2, 5)
+        m = rng.choice([x for x in range(2, 7) if x != n])
+        case = {"array_op": f"{op} {ka} {kb}", "shapes": [sha, shb], "n": n, "m": m, "scale": scale}
+        try:
+            a = build(ka, sha, scale, n, m)
+            b = build(kb, shb, scale, n, m)
+        except Exception as e:
+            ctx.count(f"array-op:operand-not-constructible:{type(e).__name__}")
+            continue
+        ctx.case(case)
+        ctx.count(f"array-op:{sha}x{shb}")
+        pa, pb = jparts(a), jparts(b)
+        bufs = [np.asarray(x) for o in (a, b) for x in (o.jd1, o.jd2)]
+        before = heap_of(*bufs)
+        try:
+            r = fn(a, b)
+            impl = "value"
+        except TypeError:
+            impl = "NI"
+        except ValueError:
+            impl = "SHAPE"
+        except Exception as e:
+            impl = f"ERR:{type(e).__name__}"
+        after = heap_of(*bufs)
+        line = f"c03 hbinop {op} {ka} {scale} {enc_val(*pa, sha == 'scalar')} {kb} {scale} {enc_val(*pb, shb == 'scalar')}"
+        ans = drv.ask1(line)
+        res_m, heap_m, _new = (x.strip() for x in ans.split("|"))
+        ctx.count(f"array-op-result:{'value' if res_m not in ('NI', 'SHAPE', 'BAD') else res_m}")
+        # the frame: model heap (operand buffers after the call) == real buffers after the call == real buffers before
+        if dec_heap(heap_m) != after:
+            ctx.disagree("operand buffers after an operator (heap model)", case, heap_m, str(after)[:300])
+        if before != after:
+            ctx.violate("operator-mutates-operand", "an arithmetic operator changed an operand's stored parts or their flags", case)
+        if res_m in ("NI", "SHAPE", "BAD"):
+            if impl != res_m:
+                ctx.disagree("operator on array operands (refusal / shape error)", case, res_m, impl)
+            if res_m == "NI" and impl == "value":
+                ctx.violate(f"meaningless-op:{op} {ka} {kb}", "an operator the property excludes returned a value", case)
+            continue
+        if impl != "value":
+            ctx.disagree("operator on array operands", case, res_m, impl)
+            if impl.startswith("ERR"):
+                ctx.violate(f"array-op-raises:{impl}", f"{op} {ka} {kb} on shapes {sha} x {shb} raised {impl}", case)
+            continue
+        kind_m, val_m = res_m.split()
+        sc_m, m1, m2 = dec_val(val_m)
+        r1, r2 = jparts(r)
+        isdelta = "Delta" in type(r).__name__
+        ok = (kind_m == "delta") == isdelta and sc_m == (np.ndim(r.jd1) == 0) and len(r1) == len(m1)
+        if ok:
+            for i in range(len(m1)):
+                if r1[i] != m1[i] or not close(r2[i], m2[i], max(abs(m2[i]), 1)):
+                    ok = False
+        if not ok:
+            ctx.disagree("operator on array operands", case, res_m, [("delta" if isdelta else "time"), np.shape(r.jd1), [str(x) for x in r1], [str(x) for x in r2]])
+            continue
+        # oracle on the real code: element i of the result is the scalar operation on elements i (stretched operands)
+        na, nb = len(pa[0]), len(pb[0])
+        for i in range(len(r1)):
+            ia = 0 if (sha == "scalar" or na == 1) else i
+            ib = 0 if (shb == "scalar" or nb == 1) else i
+            sgn = 1 if op == "add" else -1
+            want = pa[0][ia] + pa[1][ia] + sgn * (pb[0][ib] + pb[1][ib])
+            if abs(r1[i] + r2[i] - want) >= NS:
+                ctx.violate(f"elementwise:{op} {ka} {kb}", f"element {i} of {sha} {op} {shb} is not the operation on elements {i}", {**case, "i": i})
+                break
+        # the result is a new object: its buffers are none of the operands' buffers
+        for x in (r.jd1, r.jd2):
+            if isinstance(x, np.ndarray) and any(np.shares_memory(x, y) for y in bufs if isinstance(y, np.ndarray) and y.size and x.size):
+                ctx.violate("result-aliases-operand", "the result of an operator shares memory with an operand", case)
+    ctx.traces += 1
 
 
 def make_time(Time, tfmt, mjds, scale, scalar):
@@ -316,6 +470,17 @@ def one_case(ctx, Time, TimeDelta, drv, scale, fmt, fmt2, scalar, dvals, evals, 
             ok = False
         if not ok:
             ctx.disagree(f"operator {name}", {**case, "i": i}, a, [("delta" if isdelta else "time"), str(r1[i]), str(r2[i])])
+        else:
+            # theorem `flPw_err` / `result_normalised`: operands whose day parts are multiples of 1/2 (|.| <= 2^50) give a day
+            # part without any rounding and a fraction part within 2^-53 (|jd2| + |jd2'|) of the exact one
+            x, y = operands[name]
+            (x1, x2), (y1, y2) = jparts(x), jparts(y)
+            if x1[i].denominator <= 2 and y1[i].denominator <= 2 and abs(x1[i]) <= 2**50 and abs(y1[i]) <= 2**50:
+                ctx.count("rounding-budget:hypotheses-met")
+                if r1[i] != m1 or abs(r2[i] - m2) > U53 * (abs(x2[i]) + abs(y2[i])):
+                    ctx.disagree(f"rounding budget of theorem flPw_err ({name})", {**case, "i": i}, a, [str(r1[i]), str(r2[i])])
+            else:
+                ctx.count("rounding-budget:day-part-off-grid")
     snap1 = (obj_snapshot(t), obj_snapshot(t2), obj_snapshot(d), obj_snapshot(e))
     after2 = (snapshot(d_arg), snapshot(e_arg), snapshot(t_in), snapshot(t2_in))
     if snap0 != snap1 or after2 != after:
